@@ -715,6 +715,9 @@ func cmdOrders(args []string) {
 		items = append(items, item{"v3", 'E', a})
 		// one token changed
 		items = append(items, item{"v3", lvl, randEdit(rng, a)})
+		// the colon of one token moved one place to the left ("AC:L" -> "A:CL"): a parser memo keyed by
+		// name+value without a separator would accept it after the original has been seen
+		items = append(items, item{"v3", lvl, colonShift(rng, a)}, item{"v2", 'E', colonShift(rng, randValidV2(rng, 'E'))})
 		s2 := randValidV2(rng, lvl)
 		items = append(items, item{"v2", lvl, s2}, item{"v2", 'E', s2}, item{"v2", lvl, randEdit(rng, s2)})
 	}
@@ -753,6 +756,19 @@ func cmdOrders(args []string) {
 	s := rec.Flush(flagOut, "orders-"+*ord, 1)
 	s.Extra = map[string]any{"vectors": len(items), "order": *ord}
 	printSummary(s)
+}
+
+func colonShift(rng *rand.Rand, s string) string {
+	p := strings.Split(s, "/")
+	for tries := 0; tries < 8; tries++ {
+		i := rng.Intn(len(p))
+		k := strings.Index(p[i], ":")
+		if k >= 2 && !strings.HasPrefix(p[i], "CVSS") {
+			p[i] = p[i][:k-1] + ":" + p[i][k-1:k] + p[i][k+1:]
+			break
+		}
+	}
+	return strings.Join(p, "/")
 }
 
 func init() { register("orders", cmdOrders) }
